@@ -187,6 +187,27 @@ def handle (op : String) (args : List String) : String :=
     match Sexp.parse (" ".intercalate args) with
     | some req => runReq req
     | none => "bad-sexp"
+  | "h10" =>
+    -- the hypothesis of `worker_refines_fresh_partial` alone: `true` / `false` (same request as `run`;
+    -- the history is taken WITHOUT its closing `process`, which `H10` appends itself)
+    match Sexp.parse (" ".intercalate args) with
+    | some (.list (.atom "req" :: fields)) =>
+      let parsed : Option (Params × Fs × List Op) := do
+        let input ← (← field "in" fields).head? >>= path?
+        let output ← (← field "out" fields).head? >>= path?
+        let lua ← (← field "lua" fields).mapM Sexp.nat?
+        let univ ← (← field "univ" fields).mapM path?
+        let init ← (← field "init" fields).mapM fileEntry?
+        let hashes ← (← field "hashes" fields).mapM hashEntry?
+        let table ← (← field "T" fields).mapM tentry?
+        let hist ← (← field "hist" fields).mapM op?
+        pure (mkParams tmiss input output lua univ hashes table, init, hist)
+      match parsed with
+      | some (P, init, hist) =>
+        let h := if hist.getLast? == some .process then hist.dropLast else hist
+        toString (H10 P defaultFuel init 0 h)
+      | none => "bad-request"
+    | _ => "bad-sexp"
   | _ => "unknown-op " ++ op
 
 end DarkluaModel.C10
